@@ -136,86 +136,51 @@ class SATEncoder:
         return terms, const
 
     def _encode_ne_expr(self, left: Any, right: Any, is_ne: bool) -> None:
-        """Encode (left_expr != right_expr) or (left_expr == right_expr).
+        """Encode (left_expr != right_expr) or (left_expr == right_expr) for linear expressions.
 
-        Handles linear expressions like (x + c1) != (y + c2).
+        Both sides are brought to the form sum(coef * var) + const ?= 0. One or two variables are
+        encoded by forbidding the violating values / value pairs, longer sums are folded into
+        auxiliary partial-sum variables first.
         """
-        from solvor.cp import IntVar
+        coefs, const = self.model._linearize(left)
+        right_coefs, right_const = self.model._linearize(right)
+        for name, c in right_coefs.items():
+            coefs[name] = coefs.get(name, 0) - c
+        const -= right_const
 
-        # Handle subtraction: (x - y) ?= c => x ?= y + c
-        if isinstance(left, tuple) and left[0] == "sub":
-            x, y = left[1], left[2]
-            if isinstance(x, IntVar) and isinstance(y, IntVar):
-                right_const = right if isinstance(right, int) else 0
-                if is_ne:
-                    for v1 in x.bool_vars:
-                        v2 = v1 - right_const
-                        if v2 in y.bool_vars:
-                            self._clauses.append([-x.bool_vars[v1], -y.bool_vars[v2]])
-                else:
-                    for v1 in x.bool_vars:
-                        v2 = v1 - right_const
-                        if v2 in y.bool_vars:
-                            self._clauses.append([-x.bool_vars[v1], y.bool_vars[v2]])
-                            self._clauses.append([x.bool_vars[v1], -y.bool_vars[v2]])
-                        else:
-                            self._clauses.append([-x.bool_vars[v1]])
-                return
+        # terms: (variable, coefficient)
+        terms = [(self.model._vars[name], c) for name, c in coefs.items() if c != 0]
 
-        left_terms, left_const = self._flatten_sum(left)
-        right_terms, right_const = self._flatten_sum(right)
+        def violates(total: int) -> bool:
+            return (total == 0) if is_ne else (total != 0)
 
-        # Handle case: single var + const on left, constant on right
-        if len(left_terms) == 1 and len(right_terms) == 0:
-            var = left_terms[0]
-            target = right_const - left_const
-            if is_ne:
-                self._encode_ne_const(var, target)
-            else:
-                self._encode_eq_const(var, target)
+        if not terms:
+            if violates(const):
+                self._clauses.append([])
             return
 
-        # Handle case: constant on left, single var + const on right
-        if len(left_terms) == 0 and len(right_terms) == 1:
-            var = right_terms[0]
-            target = left_const - right_const
-            if is_ne:
-                self._encode_ne_const(var, target)
-            else:
-                self._encode_eq_const(var, target)
+        # Fold leading terms into partial sums until at most two terms are left
+        while len(terms) > 2:
+            (v1, c1), (v2, c2) = terms[0], terms[1]
+            sums = [c1 * a + c2 * b for a in v1.bool_vars for b in v2.bool_vars]
+            partial = self._create_int_var(min(sums), max(sums))
+            for a in v1.bool_vars:
+                for b in v2.bool_vars:
+                    self._clauses.append([-v1.bool_vars[a], -v2.bool_vars[b], partial.bool_vars[c1 * a + c2 * b]])
+            terms = [(partial, 1)] + terms[2:]
+
+        if len(terms) == 1:
+            (v1, c1) = terms[0]
+            for a in v1.bool_vars:
+                if violates(c1 * a + const):
+                    self._clauses.append([-v1.bool_vars[a]])
             return
 
-        # Handle case: two vars on left, constant on right
-        if len(left_terms) == 2 and len(right_terms) == 0:
-            target = right_const - left_const
-            if is_ne:
-                v1, v2 = left_terms
-                for val1 in v1.bool_vars:
-                    val2 = target - val1
-                    if val2 in v2.bool_vars:
-                        self._clauses.append([-v1.bool_vars[val1], -v2.bool_vars[val2]])
-            else:
-                self._encode_sum_eq(left_terms, target)
-            return
-
-        # Handle simple case: single var + const on each side
-        if len(left_terms) == 1 and len(right_terms) == 1:
-            var1, var2 = left_terms[0], right_terms[0]
-            offset = right_const - left_const
-
-            if is_ne:
-                for v1 in var1.bool_vars:
-                    v2 = v1 - offset
-                    if v2 in var2.bool_vars:
-                        self._clauses.append([-var1.bool_vars[v1], -var2.bool_vars[v2]])
-            else:
-                for v1 in var1.bool_vars:
-                    v2 = v1 - offset
-                    if v2 in var2.bool_vars:
-                        self._clauses.append([-var1.bool_vars[v1], var2.bool_vars[v2]])
-                        self._clauses.append([var1.bool_vars[v1], -var2.bool_vars[v2]])
-                    else:
-                        self._clauses.append([-var1.bool_vars[v1]])
+        (v1, c1), (v2, c2) = terms
+        for a in v1.bool_vars:
+            for b in v2.bool_vars:
+                if violates(c1 * a + c2 * b + const):
+                    self._clauses.append([-v1.bool_vars[a], -v2.bool_vars[b]])
 
     # Sum constraints
 
@@ -343,6 +308,8 @@ class SATEncoder:
         for v in range(lb, ub + 1):
             var.bool_vars[v] = self._new_bool_var()
         self.model._vars[name] = var
+        # Created after _encode_vars ran, so it needs its own exactly-one constraint
+        self._encode_exactly_one(list(var.bool_vars.values()))
         return var
 
     # Global constraints
